@@ -919,9 +919,8 @@ fn driver_lane(path: &str, max: usize, rep: &mut Report) {
             // well-formed envelope (or a form the specification leaves open): the driver may deliver it, ignore it or end the
             // connection with an error - but every caller must get an answer once good responses for all three have arrived
             if !all_done(&b) {
-                rep.mismatch("c11:driver:hang-after-well-formed-frame", case(&a, &b, &c));
-            } else if b.drv == "exitErr" && !b.ops.iter().all(|x| x.as_deref().map(|s| !s.starts_with("val:") || true).unwrap_or(false)) {
-                rep.mismatch("c11:driver:pending-operation-did-not-observe-the-error", case(&a, &b, &c));
+                let key = if v.why == "ber-out-of-domain" { "c11:driver:wedged:inner-length-out-of-domain" } else { "c11:driver:hang-after-well-formed-frame" };
+                rep.mismatch(key, case(&a, &b, &c));
             } else {
                 rep.count(if b.drv == "running" { "wellformed:connection-survived" } else { "wellformed:connection-ended-with-error" });
             }
